@@ -1,7 +1,8 @@
 (* Property C16 - only statements, each closed by [exact]. *)
 From Coq Require Import NArith List Bool.
 Import ListNotations.
-Require Import UV.Gen.Consts UV.C16.Model UV.C16.Proofs UV.C16.Frame.
+Require Import UV.Gen.Consts UV.C16.Model UV.C16.Proofs UV.C16.Frame UV.C16.Dirs.
+Local Open Scope N_scope.
 
 (* read_all: for EVERY segmentation of the stream (chunks of any size, EINTRs in between) a request of
    n bytes returns exactly the first n bytes and leaves exactly the rest. *)
@@ -73,3 +74,64 @@ Theorem C16_segment_is_a_segmentation : forall sched b,
   bytes_of (segment sched b) = b /\ good (segment sched b) = true.
 Proof. exact segment_ok. Qed.
 Print Assumptions C16_segment_is_a_segmentation.
+
+(* network == local, message level: the session MDir d; body; MEnd leaves in d exactly the directory the
+   recorder writes locally for the same buffers and files (.dat, task, map, sym, dbg, info; the info header
+   goes through both byte swaps), restores the client list, and touches no other directory beyond the
+   rotation of create_directory. *)
+Theorem C16_same_as_local : forall k d body s,
+  forallb is_body body = true -> create_directory d (fs s) d = Some fresh_dir ->
+  exists s', run (map (pair k) (MDir d :: body ++ [MEnd])) s = Some s' /\
+             fs s' d = Some (local_dir body) /\ clients s' = clients s /\
+             (forall x, x <> d -> fs s' x = create_directory d (fs s) x).
+Proof. exact same_as_local. Qed.
+Print Assumptions C16_same_as_local.
+
+(* network == local, end to end in the model: ANY schedule of short writes/EINTR on the sender (all calls
+   succeeding), ANY segmentation/EINTRs on the receiver: directory d on the server = local directory. *)
+Theorem C16_network_equals_local : forall k d body sched fr t s,
+  forallb wf_msg (MDir d :: body ++ [MEnd]) = true -> forallb is_body body = true ->
+  fs s d = None ->
+  send_all sched (MDir d :: body ++ [MEnd]) = (WDone, fr) ->
+  good t = true -> bytes_of t = concat fr ->
+  exists s' tm', serve (repeat k (length body + 2)) (tm_set k t (fun _ => [])) s = Some (s', tm') /\
+                 fs s' d = Some (local_dir body) /\ (forall x, x <> d -> fs s' x = fs s x).
+Proof. exact network_equals_local. Qed.
+Print Assumptions C16_network_equals_local.
+
+(* isolation, under the EXACT guard: every other connection announces a directory name that is independent
+   of k's (different, and neither is the other's NAME.old).  For every interleaving (message granularity -
+   the server reads one whole message per wake-up) what is in k's directory and in its .old after the whole
+   run is what k's own messages alone produce. *)
+Theorem C16_clients_isolated : forall dirs k evs s',
+  Forall (ev_ok dirs k) evs -> run evs server0 = Some s' ->
+  exists s'', run (own k evs) server0 = Some s'' /\
+              fs s' (dirs k) = fs s'' (dirs k) /\ fs s' (old_of (dirs k)) = fs s'' (old_of (dirs k)).
+Proof. exact clients_isolated. Qed.
+Print Assumptions C16_clients_isolated.
+
+Theorem C16_clients_isolated_nonvacuous : Forall (ev_ok dirs2 1) evs2 /\ run evs2 server0 <> None.
+Proof. exact isolation_nonvacuous. Qed.
+Print Assumptions C16_clients_isolated_nonvacuous.
+
+(* without the guard the statement is FALSE of the code as it is: two clients connected at once with the same
+   directory name (the default uftrace.data) get their files mixed, the first one's recording is torn. *)
+Theorem C16_same_dirname_refuted :
+  forallb (fun e => wf_msg (snd e)) evs_same = true /\
+  dir_after (own 2 evs_same) ud = Some [(n_default_opts, []); (dat_name 22, [67]); (n_task, [98])] /\
+  dir_after evs_same ud = Some [(n_default_opts, []); (dat_name 11, [66]); (dat_name 22, [67]); (n_task, [97; 98])] /\
+  dir_after evs_same (old_of ud) = Some [(n_default_opts, []); (dat_name 11, [65])].
+Proof. exact same_dirname_mixes. Qed.
+Print Assumptions C16_same_dirname_refuted.
+
+(* all theorems above take ONE writer per connection (messages of a connection are sent one after the other).
+   The recorder's writer threads share the socket without a lock: a short writev count in one thread lets the
+   other thread's message in between and the receiver dies on the next header. *)
+Theorem C16_shared_socket_refuted :
+  wf_msg m_t1 = true /\ wf_msg m_t2 = true /\
+  w_status (send_msg [WAccept 8; WAccept 100] m_t1) = WDone /\ w_status (send_msg [WAccept 100] m_t2) = WDone /\
+  after_stream (enc (MDir ud) ++ enc m_t1 ++ enc m_t2 ++ enc MEnd)
+    = Some (Some [(n_default_opts, []); (dat_name 11, [1; 2; 3; 4]); (dat_name 22, [9])]) /\
+  after_stream (enc (MDir ud) ++ concat (interleave [true; false] frags_t1 frags_t2) ++ enc MEnd) = None.
+Proof. exact shared_socket_breaks_framing. Qed.
+Print Assumptions C16_shared_socket_refuted.
